@@ -410,6 +410,14 @@ func runCase(c Case) []ev.Violation {
 		if (n == "via" || n == "x-forwarded-for") && len(have) == len(want) && strings.Join(have, ",") == strings.Join(want, ",") {
 			bad("own-forwarding-element-missing/"+n, "upstream %s %q has no element added by Olla", n, got[n])
 		}
+		// Olla is one hop: it appends one element to the chain, however many attempts the request took
+		if (n == "via" || n == "x-forwarded-for") && len(have) > len(want)+1 {
+			fo := "first-attempt"
+			if c.Failover {
+				fo = "after-failover"
+			}
+			bad("own-forwarding-element-repeated/"+n+"/"+fo, "%s route, engine %s (%s): client sent %s %q, upstream got %q: %d elements were appended, Olla is one hop", c.Route, c.Engine, fo, n, sent[n], got[n], len(have)-len(want))
+		}
 	}
 	if len(sent["via"]) == 0 && len(got["via"]) == 0 {
 		bad("own-forwarding-element-missing/via", "upstream request has no Via header")
@@ -442,7 +450,7 @@ func spellings(hs [][2]string, name string) []string {
 func TestC15(t *testing.T) {
 	defer rig.StopAll()
 	rec.SetRule("header blocks written verbatim by a raw TCP client: every sensitive and hop-by-hop name in generated letter-case variants with 0..3 occurrences and empty values (a quarter of the cases sparse: only one or two blocked names present, with drawn patterns of empty and non-empty lines), 0..40 arbitrary RFC 7230 token-named headers (repeated names, obs-text and tab in values), optional pre-existing Via / X-Forwarded-* / X-Real-IP on one or several lines; x route (proxy, provider, Anthropic passthrough, Anthropic translated) x engine x failover from a refusing first endpoint; the raw backend's received header block is compared. non-trivial = >=1 sensitive header in non-canonical case and >=5 arbitrary headers; distinct by sorted (name, count) skeleton")
-	rec.Assume("headers nominated by the client's Connection value (RFC 7230 §6.1) are not asserted; header names are compared case-insensitively; for X-Forwarded-For/Via only preservation of the existing elements (as a prefix) and the presence of an added element are asserted, not what is added")
+	rec.Assume("headers nominated by the client's Connection value (RFC 7230 §6.1) are not asserted; header names are compared case-insensitively; for X-Forwarded-For/Via preservation of the existing elements (as a prefix) and exactly one appended element are asserted, not what that element says")
 	if ev.Replay(t, rec, "headers", runCase) {
 		return
 	}
